@@ -35,6 +35,7 @@ Ceiling
                             first key, nothing after a failed selection).  This includes that the single schedule
                             entry of the switch node in its parent graph never loses or duplicates a wake-up of
                             the active child, and that a wake-up left behind by a stopped child has no effect.
+                            `follows_selected_unique`: `SegSpec` determines the stream (equality form).
 
 Strength: full for the model.  The child graph is abstracted as a Mealy machine with one wake-up time; what
 the model does not contain (target-link sampling of nested collections, REF / forwarding-terminal outputs,
@@ -213,6 +214,12 @@ theorem segment_follows_branch (cfg : Cfg σ) (r : Run σ) (t : Nat) (c : Cyc) (
 theorem switch_follows_selected (cfg : Cfg σ) (t0 : Nat) (hist : List Cyc) :
     SegSpec cfg t0 {} none hist ((runFrom cfg {} t0 hist).map (fun o => o.out)) :=
   follows_gen cfg hist.length hist (Nat.le_refl _) {} t0 (Timing.init t0) (Or.inl rfl)
+
+/-- `SegSpec` pins the stream down: whatever stream is the concatenation of the per-segment stand-alone runs
+    IS the recorded output of the run (equality form of `switch_follows_selected`). -/
+theorem follows_selected_unique (cfg : Cfg σ) (t0 : Nat) (hist : List Cyc) (outs : List (Option Val))
+    (h : SegSpec cfg t0 {} none hist outs) : (runFrom cfg {} t0 hist).map (fun o => o.out) = outs :=
+  (switch_follows_selected cfg t0 hist).unique h
 
 /-! ## non-vacuity: concrete branches, a concrete history -/
 
